@@ -292,16 +292,20 @@ def check_one(layer, c, tmp, acc):
         h = os.path.join(tmp, 'h.csv')
         hand_write(c, h, eol, bom, qa)
         acc.count('hand_written_files')
-        try:
-            rh = read_csv(h)
-        except Exception as ex:  # noqa
-            acc.violation('C13', f'csv/handwritten-raised-{type(ex).__name__}/{cls()}/{"bom" if bom else "nobom"}-{"lf" if eol == chr(10) else "crlf"}-{"allquoted" if qa else "minimal"}',
-                          f'read_csv of a hand-written file raised {type(ex).__name__}: {ex}', case)
-            continue
-        d = diff(exp, meaning_of_wbs(rh))
-        if d:
-            acc.violation('C13', f'csv/handwritten-{d[0]}/{cls()}/{"bom" if bom else "nobom"}-{"lf" if eol == chr(10) else "crlf"}-{"allquoted" if qa else "minimal"}',
-                          'hand-written file: ' + d[1], case)
+        # read with the default arguments and with the same arguments spelled out (utf-8 text, ';' as delimiter)
+        for how, kw in (('', {}), ('/explicit-arguments', {'encoding': 'utf-8', 'delimiter': ';'})):
+            if how and layer not in ('structure', 'text'):
+                continue
+            tag = f'{"bom" if bom else "nobom"}-{"lf" if eol == chr(10) else "crlf"}-{"allquoted" if qa else "minimal"}{how}'
+            try:
+                rh = read_csv(h, **kw)
+            except Exception as ex:  # noqa
+                acc.violation('C13', f'csv/handwritten-raised-{type(ex).__name__}/{cls()}/{tag}',
+                              f'read_csv of a hand-written file raised {type(ex).__name__}: {ex}', case)
+                continue
+            d = diff(exp, meaning_of_wbs(rh))
+            if d:
+                acc.violation('C13', f'csv/handwritten-{d[0]}/{cls()}/{tag}', 'hand-written file: ' + d[1], case)
     # write again after an edit: the second file is the edited WBS (nothing remembered from the first write)
     if layer in ('structure', 'dates'):
         try:
